@@ -142,6 +142,16 @@ func load(repo string, rels []string, specDir string, extras ...map[string]pkgEx
 				continue
 			}
 			eng.contracts[fn] = fc
+			if r, ok := closureRebind[pc.Path+"."+fc.QualName]; ok {
+				// the literal moved to another ordinal: everything that names functions (obligations, ghost log, the
+				// callee strings of the specs) keeps calling it by the name its contract gives it
+				k := strings.Index(r, "$")
+				actual := shortFn(fn)
+				if j := strings.LastIndex(actual, "$"); j >= 0 && k >= 0 {
+					fnAlias[fn] = actual[:j] + fc.QualName[strings.Index(fc.QualName, "$"):]
+					aliasTaken[fnAlias[fn]] = true
+				}
+			}
 			if fc.Lemma {
 				delete(eng.specPure, fn) // lemmas are verified like code
 			}
@@ -224,6 +234,9 @@ func findFunc(prog *ssa.Program, sp *ssa.Package, qual string) *ssa.Function {
 		return nil
 	}
 	if k := strings.Index(qual, "$"); k >= 0 {
+		if r, ok := closureRebind[sp.Pkg.Path()+"."+qual]; ok {
+			qual = r
+		}
 		parent := findFunc(prog, sp, qual[:k])
 		if parent == nil {
 			return nil
